@@ -6,8 +6,31 @@ CHROMS = [b'chr1', b'chr10', b'chr', b'chr2', b'c', b'chrX', 'chré'.encode(), b
 W64 = G.W64
 
 
+# families of LONG names that agree on a long prefix (16, 32, 64 bytes and more) and differ only after it, some of equal
+# length: an implementation that compares, hashes or stores only a bounded prefix of the chromosome name confuses them
+_P16 = b'chrUn_KI270302v1'
+_P19 = b'HLA-DRB1*15:01:01:0'
+_P40 = b'NW_017852933.1_unplaced_genomic_scaffold'
+_P70 = b'GL000' + b'x' * 60 + 'é'.encode() + b'abc'
+LONG_FAMILIES = [
+    [_P16, _P16 + b'_a', _P16 + b'_b', _P16 + b'_'],
+    [_P19 + b'1', _P19 + b'2', _P19 + b'03', _P19 + b'1x'],
+    [_P40 + b'_0001', _P40 + b'_0002', _P40 + b'_00010'],
+    [_P70 + b'1', _P70 + b'2', _P70],
+    [b'c' * 255 + b'a', b'c' * 255 + b'b'],
+]
+
+
 def chrom(rng, k=None):
     return rng.choice(CHROMS[:k] if k else CHROMS)
+
+
+def chrom_set(rng, n):
+    """n chromosome names: usually independent draws from the short pool, sometimes members of one long-prefix family"""
+    if rng.random() < 0.12:
+        fam = rng.choice(LONG_FAMILIES)
+        return [rng.choice(fam) for _ in range(max(1, n))] if n != 2 else rng.sample(fam, 2)
+    return [chrom(rng) for _ in range(max(1, n))]
 
 
 def h(c):
@@ -17,7 +40,7 @@ def h(c):
 def rand_regions(rng, mode, n, kind, nchrom=3):
     """list of (chrom bytes, s, e)"""
     ivs = G.rand_ivs(rng, mode, n, kind)
-    cs = [chrom(rng) for _ in range(max(1, nchrom))]
+    cs = chrom_set(rng, nchrom)
     return [(rng.choice(cs), s, e) for (s, e) in ivs]
 
 
@@ -37,6 +60,9 @@ def rand_query(rng, regs, mode, nonempty=True):
         a, b = G.rand_query(rng, pbc[c], mode, nonempty)
     elif pbc and r < 0.93:
         c = rng.choice(CHROMS)
+        fams = [f for f in LONG_FAMILIES if any(x in f for x in pbc)]
+        if fams:
+            c = rng.choice(rng.choice(fams))          # a sibling sharing the long prefix, stored or not
         allp = sorted(set(p for v in pbc.values() for p in v))
         a, b = G.rand_query(rng, allp, mode, nonempty)
     else:
